@@ -171,6 +171,8 @@ class Evaluator:
         if depth > self.max_depth:
             raise Unsupported("call depth")
         a = fi.node.args  # type: ignore[attr-defined]
+        if (a.vararg is not None or a.kwarg is not None) and fi.cls is None:
+            return Closure(self, fi.node, {}, fi, depth)(*args, **(kwargs or {}))
         names = [x.arg for x in a.posonlyargs + a.args]
         if fi.cls is not None and names and names[0] in ("self", "cls"):
             names = names[1:]
@@ -249,6 +251,14 @@ class Evaluator:
                 continue
             elif isinstance(st, ast.FunctionDef) and not st.decorator_list:
                 env[st.name] = Closure(self, st, env, fi, depth)
+            elif isinstance(st, (ast.Import, ast.ImportFrom)):
+                # a function-local import: package functions become callable by their local name
+                if isinstance(st, ast.ImportFrom) and st.module and st.level == 0:
+                    mod = self.idx.modules.get(st.module)
+                    for al in st.names:
+                        g = mod.funcs.get(al.name) if mod is not None else None
+                        if g is not None:
+                            env[al.asname or al.name] = (lambda g_: (lambda *a, **k: self.call(g_, list(a), k, depth + 1)))(g)
             elif isinstance(st, ast.Delete):
                 for tg in st.targets:
                     if isinstance(tg, ast.Name):
@@ -257,6 +267,8 @@ class Evaluator:
                         raise Unsupported("delete target")
             elif isinstance(st, ast.For) and not st.orelse:
                 it = self.eval(st.iter, env, fi, depth)
+                if isinstance(it, Opaque):
+                    raise Unsupported("iteration over an opaque value")
                 if not isinstance(it, (list, tuple, frozenset, range, dict)):
                     raise EvalRaise("TypeError") if it is None or isinstance(it, (int, float)) else Unsupported("iteration over an abstract value")
                 for item in list(it):
@@ -434,6 +446,8 @@ class Evaluator:
             gen = e.generators[0]
             it = self.eval(gen.iter, env, fi, depth)
             out = []
+            if isinstance(it, Opaque):
+                raise Unsupported("iteration over an opaque value")
             try:
                 items = list(it)
             except TypeError:
@@ -528,6 +542,12 @@ class Evaluator:
             return args[0].code if isinstance(args[0], DT) else int(args[0])
         if cn == "set" and not args:
             return _MutSet()
+        if cn == "next" and args and isinstance(args[0], (list, tuple)):
+            if args[0]:
+                return args[0][0]
+            if len(args) > 1:
+                return args[1]
+            raise EvalRaise("StopIteration")
         if cn in ("max", "min", "abs", "len", "tuple", "list", "sorted", "range", "sum", "any", "all", "set", "zip", "enumerate", "reversed"):
             try:
                 r = {"max": max, "min": min, "abs": abs, "len": len, "tuple": tuple, "list": list, "sorted": sorted, "range": range, "sum": sum,
